@@ -96,6 +96,12 @@ pub fn all(cx: &mut Ctx, iters: usize) {
     for k in 0..48usize { ratios.push(f.pow(&gg, &(n(1) << k))); }
     for k in 0..20u64 { ratios.push(f.pow(&zeta(), &n(k))); }
     for _ in 0..iters { ratios.push(cx.rng.below(&qq)); }
+    // zero operands in every combination (the four-case contract orders its cases: num = 0 first)
+    for (num, den) in [(n(0), n(0)), (n(0), n(1)), (n(0), n(7)), (n(1), n(0)), (n(7), n(0)), (zeta(), n(0))] {
+        let d = || format!("num = {}, den = {}", num, den);
+        let (ws, y) = Fq::non_arkworks_sqrt_ratio_zeta(&fq_of(&num), &fq_of(&den));
+        cx.eq("non_arkworks_sqrt_ratio_zeta four-case contract (zero operands)", &d, isqrt_ok(&num, &den, ws, &N::from_bytes_le(&y.to_bytes())), true);
+    }
     for x in ratios.iter() {
         for den in [n(1), n(5)] {
             let num = f.mul(x, &den);
